@@ -1,4 +1,5 @@
-import TenpyModel.C20.ThreadedProofs
+import TenpyModel.C20.ThreadedInv
+import TenpyModel.C20.ThreadedProgress
 /-!
 # C20 (concurrent part) — property theorems
 
@@ -29,6 +30,32 @@ theorem reach_params {s0 s : St} (h : Reach s0 s) : s.maxsize = s0.maxsize ∧ s
     cases t
     · simp only [step] at hs; split_main hs <;> exact ih
     · simp only [step] at hs; split_worker hs <;> exact ih
+
+/-- a fixed fair schedule for the examples: main whenever it can make progress (not a `put` on a
+full queue), else the worker -/
+def runMainFirst : Nat → St → St
+  | 0, s => s
+  | n + 1, s =>
+    let spin := match s.mpc with | .put _ _ => full s | _ => false
+    match (if spin then none else stepMain s) with
+    | some s' => runMainFirst n s'
+    | none => match stepWorker s with
+      | some s' => runMainFirst n s'
+      | none => s
+
+/-- the opposite schedule: the worker whenever it can make progress (not an idle poll), else main -/
+def runWorkerFirst : Nat → St → St
+  | 0, s => s
+  | n + 1, s =>
+    if s.wpc = .dead ∨ ((s.wpc = .isSet ∨ s.wpc = .get) ∧ s.queue = [] ∧ s.exit = false) then
+      match stepMain s with
+      | some s' => runWorkerFirst n s'
+      | none => match stepWorker s with
+        | some s' => runWorkerFirst n s'
+        | none => s
+    else match stepWorker s with
+      | some s' => runWorkerFirst n s'
+      | none => s
 
 end TenpyModel.C20.Threaded
 
@@ -106,3 +133,109 @@ example :
         .worker, .worker] (init [.save 0 5, .load 0] 2 none)).1
     s.mpc = .join (.loadC3 0) ∧ s.unfinished = 2 ∧ enabled .main s = false ∧ enabled .worker s = true := by
   decide
+
+/-- **Linearizability to the dictionary spec**: under EVERY schedule (and every injected worker
+fault), every `load k` that completes returns the value of the last `save k` that precedes it in
+program order (`abs` is updated exactly when a `save`/`delete` task is enqueued; `reads` logs
+`(k, returned value, abs k)` at the moment `load` returns). -/
+theorem C20_threaded_linearizable (prog : List Call) (maxsize : Nat) (failAt : Option Nat) (s : St)
+    (h : Reach (init prog maxsize failAt) s) (k : Key) (v a : Val) (hr : (k, v, some a) ∈ s.reads) : v = a :=
+  (invA_reach (invA_init _ _ _) h).r (k, v, some a) hr a rfl
+
+/-- non-vacuity: `save 0 1; preload 0; save 0 2 (joins the pending preload, overwrites _loaded);
+load 0; delete 0; save 0 3; load 0` under two different schedules runs to completion and logs the
+reads `2` and `3`, each with the matching program-order value. -/
+example :
+    let p : List Call := [.save 0 1, .preload 0, .save 0 2, .load 0, .delete 0, .save 0 3, .load 0]
+    let s1 := runMainFirst 400 (init p 1 none)
+    let s2 := runWorkerFirst 400 (init p 2 none)
+    s1.mpc = .done ∧ s1.reads = [(0, 3, some 3), (0, 2, some 2)] ∧
+    s2.mpc = .done ∧ s2.reads = [(0, 3, some 3), (0, 2, some 2)] ∧
+    s1.outs = [.ret (some 3), .ret none, .ret none, .ret (some 2), .ret none, .ret none, .ret none] := by
+  decide
+
+/-- non-vacuity of the fault case: the second task (the load) raises in the worker while main
+waits in `join`; main is released and gets `WorkerDied` (or, if `task_done` wins the race against
+`exit.set`, the `assert` fails) — never a hang; close completes. -/
+example :
+    let s1 := runMainFirst 400 (init [.save 0 1, .load 0] 1 (some 1))
+    let s2 := runWorkerFirst 400 (init [.save 0 1, .load 0] 1 (some 1))
+    s1.mpc = .done ∧ s1.wpc = .dead ∧ s1.outs = [.err .assertion, .ret none] ∧
+    s2.mpc = .done ∧ s2.wpc = .dead ∧ s2.outs = [.err .workerDied, .ret none] := by
+  decide
+
+/-- **A failing (or any) task never leaves `join_tasks` blocked**: whenever the caller is in
+`tasks.join()`, at most `mu s = 5·|queue| + rank` steps of the worker alone bring
+`unfinished_tasks` to 0 — by executing the tasks, or, after an exception / exit request, by
+draining them (`workerIter` just iterates `stepWorker`). -/
+theorem C20_threaded_join_progress (prog : List Call) (maxsize : Nat) (failAt : Option Nat) (s : St)
+    (h : Reach (init prog maxsize failAt) s) (a : AfterJoin) (hj : s.mpc = .join a) :
+    ∃ n, n ≤ mu s ∧ (workerIter n s).unfinished = 0 ∧ (workerIter n s).mpc = .join a := by
+  obtain ⟨n, hn, hu⟩ := join_progress s (invB_reach (invB_init _ _ _) h) a hj
+  refine ⟨n, hn, hu, ?_⟩
+  have : ∀ n s, (workerIter n s).mpc = s.mpc := by
+    intro n
+    induction n with
+    | zero => intro s; rfl
+    | succ n ih =>
+      intro s
+      simp only [workerIter]
+      split
+      · rename_i s' hs'; rw [ih s', (worker_frame s s' hs').1]
+      · rfl
+  rw [this, hj]
+
+/-- **`close` terminates**: once the caller waits in `worker_thread.join()`, at most `mu s` worker
+steps later the worker thread has terminated. -/
+theorem C20_threaded_close_progress (prog : List Call) (maxsize : Nat) (failAt : Option Nat) (s : St)
+    (h : Reach (init prog maxsize failAt) s) (hj : s.mpc = .closeTJoin) :
+    ∃ n, n ≤ mu s ∧ (workerIter n s).wpc = .dead :=
+  close_progress s (invB_reach (invB_init _ _ _) h) hj
+
+/-- **`put` on a full queue does not spin forever**: after at most `mu s` worker steps the queue
+has room or the worker is dead — and in the latter case the next alive-check raises
+(`C20_threaded_dead_worker_raises`). -/
+theorem C20_threaded_put_progress (prog : List Call) (maxsize : Nat) (failAt : Option Nat) (s : St)
+    (h : Reach (init prog maxsize failAt) s) :
+    ∃ n, n ≤ mu s ∧ (full (workerIter n s) = false ∨ (workerIter n s).wpc = .dead) :=
+  put_progress s (invB_reach (invB_init _ _ _) h)
+
+/-- `_test_worker_alive` raises `WorkerDied` as soon as the exit flag is set or the thread is dead. -/
+theorem C20_threaded_dead_worker_raises (s : St) (c : Cont) :
+    (s.mpc = .isSet c → s.exit = true → stepMain s = some (raise s .workerDied)) ∧
+    (s.mpc = .isAlive c → s.wpc = .dead → stepMain s = some (raise s .workerDied)) := by
+  constructor
+  · intro h1 h2; simp [stepMain, h1, h2]
+  · intro h1 h2; simp [stepMain, h1, h2]
+
+/-- non-vacuity: main in `join` with two unfinished tasks, the first of which raises: 6 ≤ mu = 12
+worker steps (fail, task_done, exit.set, drain) release the join; then the alive-check raises. -/
+example :
+    let s := (runSched [.main, .main, .main, .main, .main, .main, .main, .main, .main, .main, .main, .main,
+        .worker, .worker] (init [.save 0 5, .load 0] 2 (some 0))).1
+    s.mpc = .join (.loadC3 0) ∧ s.unfinished = 2 ∧ mu s = 12 ∧
+    (workerIter 5 s).unfinished = 1 ∧ (workerIter 6 s).unfinished = 0 ∧ (workerIter 6 s).exit = true ∧
+    (workerIter 7 s).wpc = .dead := by
+  decide
+
+/-
+Full statement NOT proved (kept for the record; it is what the harness' oracle checks on every
+run, "no exception without an injected fault"):
+
+  theorem C20_threaded_no_spurious_error (prog) (maxsize) (s)
+      (hwf : every `load k`/`preload k` of `prog` is preceded by a `save k _` with no `delete k` in between)
+      (h : Reach (init prog maxsize none) s) : ∀ e, Out.err e ∉ s.outs
+
+Missing: an invariant that a queued `load k` finds `k` on disk when it runs (the prefix of the
+queue before it, applied to the disk, holds `k`), and that `k ∈ waiting`, nothing in flight and a
+healthy worker imply `k ∈ _loaded`.  What is proved is the part about `WorkerDied`:
+-/
+
+/-- `WorkerDied` is only ever raised when the exit flag is set or the worker thread has terminated
+(and both are permanent) — it never surfaces while the worker is alive and well. -/
+theorem C20_threaded_no_spurious_error_partial (prog : List Call) (maxsize : Nat) (failAt : Option Nat) (s : St)
+    (h : Reach (init prog maxsize failAt) s) (he : Out.err .workerDied ∈ s.outs) :
+    s.exit = true ∨ s.wpc = .dead :=
+  invC_reach (s0 := init prog maxsize failAt) (by simp [InvC, init]) h he
+
+example : Out.err .workerDied ∈ (runWorkerFirst 400 (init [.save 0 1, .load 0] 1 (some 1))).outs := by decide
